@@ -11,7 +11,8 @@ RULE = ("conforming slice headers for every slice type 0..9 x NAL type {1,5} x n
         "always-zero deltas, bottom-field POC flag, redundant count, weighted pred / bipred idc 0..3, CABAC, deblocking "
         "control, chroma format incl. monochrome), boundary values per element, followed by generated slice data; as "
         "escaped chunked NALs; malformed: truncations, bit flips, undefined PPS/SPS ids, out-of-range elements. "
-        "observable: Debug of the header, ids of the returned sets and that they are the context's entries, and the next "
+        "a quarter of the contexts reached through longer put histories (SPS replaced after the PPS arrived, other ids around, PPS "
+        "stored twice); one Exp-Golomb element displaced by a multiple of 256. observable: Debug of the header, ids of the returned sets and that they are the context's entries, and the next "
         "16 bits read from the same reader (must be the slice data). non-trivial = parse got past the PPS lookup")
 CORRESPONDENCE = "Model/Slice.v slice_header_read vs SliceHeader::from_bits"
 ASSUMPTIONS = ["B slices with explicit weighted prediction are reported UnsupportedSyntax by the library (excepted by the property)",
@@ -34,11 +35,32 @@ def mk_ctx(rng, i):
     return s, p, "S%s,P%s" % (hx(g.sps_nal(s, rng)), hx(g.pps_nal(p, rng)))
 
 
+def ctx_history(rng, s, p):
+    """the same final (SPS, PPS) reached through a longer history of puts: the SPS replaced after the PPS arrived (by an
+    identical one, or first stored with other level / size and then replaced by the real one), sets with other ids around,
+    the PPS stored twice"""
+    import copy
+    S, P = "S" + hx(g.sps_nal(s, rng)), "P" + hx(g.pps_nal(p, rng))
+    s2 = copy.deepcopy(s)
+    s2["level_idc"] = (s["level_idc"] + 1) % 256
+    if rng.random() < 0.5:
+        s2["w"] = s["w"] + 1
+    S2 = "S" + hx(g.sps_nal(s2, rng))
+    so = g.gen_sps(rng, sps_id=(s["id"] + 1) % 32, small=True)
+    po = g.gen_pps(rng, so, pps_id=(p["id"] + 1) % 256)
+    So, Po = "S" + hx(g.sps_nal(so, rng)), "P" + hx(g.pps_nal(po, rng))
+    k = rng.randrange(7)
+    seq = [[S2, P, S], [S, P, S], [S, P, S2, S], [So, S, Po, P, So], [S, P, P], [S2, P, S, P], [S, So, Po, P, S2, S, Po]][k]
+    return ",".join(seq)
+
+
 def gen(tier, rng):
     cases = []
     n = 3000 if tier == "quick" else 80000
     for i in range(n):
         s, p, ctx = mk_ctx(rng, rng.getrandbits(13) if i >= 8192 else i)
+        if i % 4 == 3:
+            ctx = ctx_history(rng, s, p)
         h = g.gen_slice(rng, s, p, nal_type=[1, 5][i % 2], ref_idc=(i // 2) % 4, slice_type=(i // 8) % 10)
         nal, data = g.slice_nal(h, rng)
         if rng.random() < 0.5:
@@ -77,6 +99,13 @@ def gen(tier, rng):
         if m < 0.02:
             for k in range(1, len(nal)):
                 cases.append("slice %s %s" % (ctx, nal_src([nal[:k]], False)))
+    # one Exp-Golomb element displaced by a multiple of 256 (what a narrowing cast would alias onto the valid value)
+    from vlib import bitgen
+    for i in range(1500 if tier == "quick" else 30000):
+        s, p, ctx = mk_ctx(rng, rng.getrandbits(13))
+        h = g.gen_slice(rng, s, p, nal_type=[1, 5][i % 2], ref_idc=(i // 2) % 4, slice_type=(i // 8) % 10)
+        nal2 = bitgen.aliased(rng, lambda: g.slice_nal(h, rng)[0])
+        cases.append("slice %s raw:%s" % (ctx, hx(nal2)))
     # other NAL types reaching the parser (2..4, 19, 20, 21) and header without trailing data
     for i in range(200 if tier == "quick" else 4000):
         s, p, ctx = mk_ctx(rng, rng.getrandbits(13))
